@@ -5,12 +5,13 @@ char in_buf[FW]; int_t in_num, in_size;
 int_t g_n, g_w, g_k, g_hasp, g_po, g_pk, g_lk, g_pp, g_pn, g_ln, g_pe, g_pw, g_lw, g_pd, g_ret; char g_buf0[FW];
 #if RB
 void @p@readrb(int_t *, int_t *, int_t *, @T@ **, int_t **, int_t **);
-int_t in_nrow, in_ncol, in_nonz; @T@ *in_nzval; int_t *in_rowind, *in_colptr; int g_called;
+int_t in_nrow, in_ncol, in_nonz; @T@ *in_nzval; int_t *in_rowind, *in_colptr; extern int g_fields_delivered, g_fgets_calls;
 #else
 int_t @p@ParseFloatFormat(char *, int_t *, int_t *);
 #endif
 void h_fmt(void) {
 #if RB
+  g_fields_delivered = 0; g_fgets_calls = 0;
   @p@readrb(&in_nrow, &in_ncol, &in_nonz, &in_nzval, &in_rowind, &in_colptr);
 #else
   g_ret = @p@ParseFloatFormat(in_buf, &in_num, &in_size);
@@ -28,5 +29,5 @@ void h_fmt(void) {
   if (g_n == 4 && g_w == 20 && g_po == 0 && g_pd == 6 && g_buf0[g_pe] == 'D') __CPROVER_assert(0, "canary: (4D20.12)");
 #endif
   if (g_buf0[g_pe] == 'F' && g_buf0[g_pd] == ')') __CPROVER_assert(0, "canary: F without fraction");
-  if (g_pd == FW - 1 && g_po == 0) __CPROVER_assert(0, "canary: '.' is the last character of the field");
+  if (g_pd >= 9 && g_po == 0) __CPROVER_assert(0, "canary: long descriptor");
 }
